@@ -767,6 +767,9 @@ class Engine:
 
     def compare(self, op, a, b, line):
         opn = type(op).__name__
+        if opn in ("Is", "IsNot") and isinstance(a, SV) and isinstance(b, SV) and isinstance(a.sort, (ListOf, MapOf)) and isinstance(b.sort, (ListOf, MapOf)):
+            same = zr(a.t) == zr(b.t)  # object identity of containers
+            return same if opn == "Is" else z3.Not(same)
         if opn in ("Eq", "Is"):
             return self.eq(a, b)
         if opn in ("NotEq", "IsNot"):
